@@ -1,5 +1,7 @@
-\* non-vacuity control: without the named deviation DataSliceIncludesHeader the model must violate DataSliceExact
+\* control with the pinned (unrepaired) decode_data: FixDataSlice = FALSE must violate DataSliceExact
 CONSTANTS
+  FixIterShort = TRUE
+  FixDataSlice = FALSE
   Caps = {16, 24, 32}
   Sizes = {0, 1, 8}
   MaxMsgs = 2
